@@ -227,5 +227,9 @@ def run(ctx):
             continue
         run.instance(R5, item, held=False)
         run.finding(Finding(R5, s.fn.id, what, site=s.site(), detail="panic-capable site on a query path used after reopening the wallet"))
+    R6 = "C06.R6"
+    run.rule(R6, "no write is silently lost: a batch that received a write is committed (Ok) before the function returns Ok", floor=30)
+    from .shared import writes_committed
+    writes_committed(ctx, R6)
     run.not_decided += ["that the invariants hold at every crash point of every multi-batch operation (an enumeration over executions); R1-R3 are the structural conditions the code relies on", "LMDB's own atomicity / durability", "file-system semantics of rename/remove"]
     run.assumptions.append(_SUPPLY)
